@@ -49,7 +49,7 @@ func runC18(c *an.Ctx) {
 			c.Check(ok, key, rule, c.P.Rel(w.In.Pos()), why)
 		}
 	}
-	c.RequireMin("stores to ZeroCopySource.off", nStores, 4)
+	c.RequireMin("stores to ZeroCopySource.off", nStores, 2)
 	// BackUp callers
 	backUp := mustObj(c, "common.(*ZeroCopySource).BackUp")
 	posM := mustObj(c, "common.(*ZeroCopySource).Pos")
@@ -75,7 +75,7 @@ func runC18(c *an.Ctx) {
 				c.Check(ok, "offset|BackUp-caller|"+an.FuncName(fn)+fmt.Sprintf("#%d", per), "BackUp is called only with a constant (after reading that many bytes) or with the difference of two positions of the same source", c.P.Rel(k.Pos()), "argument is "+an.AccessPath(arg))
 			}
 		}
-		c.RequireMin("BackUp call sites", n, 4)
+		c.RequireMin("BackUp call sites", n, 2)
 	}
 	// (2) who indexes s
 	for _, fn := range fns {
